@@ -4,6 +4,10 @@ import (
 	"bytes"
 	"crypto/sha256"
 	"fmt"
+	"sync"
+	"sync/atomic"
+
+	goatcrypto "github.com/goatnetwork/goat/pkg/crypto"
 
 	btctypes "github.com/goatnetwork/goat/x/bitcoin/types"
 
@@ -289,22 +293,135 @@ func c04Deep(c *vc.Ctx, batch int) {
 	}
 }
 
+// c04Concurrent: the verdict may depend on (leaf, position, path, root) only - also when several verifications run at
+// the same time, as they do in a node (block execution on the consensus connection next to simulations and queries).
+// Genuine proofs, foreign leaves under genuine paths (same position: they share every node above the leaf level with
+// the genuine proof) and sibling-changed paths are verified by many goroutines at once, next to goroutines that
+// double-hash transactions the way deposit checking does; every verdict and digest is compared with the sequentially
+// computed reference. The race build reports unsynchronised shared memory in the same workload.
+func c04Concurrent(c *vc.Ctx, batch int) {
+	size := []int{2, 5, 16, 33, 64, 127}[batch%6]
+	leaves := c04Leaves(c.Seed+uint64(977*batch), size)
+	tree := world.NewMerkleTree(leaves)
+	root, depth := tree.Root(), tree.Depth()
+	type job struct {
+		variant    string
+		leaf, path []byte
+		pos        uint32
+		want       bool
+	}
+	var jobs []job
+	for li := 0; li < size; li++ {
+		path := tree.Proof(li)
+		foreign := world.Derive(c.Seed, fmt.Sprintf("c04foreign/%d", batch), li)
+		jobs = append(jobs, job{"genuine", leaves[li], path, uint32(li), true})
+		jobs = append(jobs, job{"foreign-leaf-at-a-real-position", foreign, path, uint32(li), false})
+		jobs = append(jobs, job{"wrong-leaf", leaves[(li+1)%size], path, uint32(li), size == 1})
+		if depth > 0 {
+			jobs = append(jobs, job{"sibling-position", leaves[li], path, uint32(li) ^ 1, false})
+			fp := append([]byte(nil), path...)
+			fp[((li%depth)*32)+li%32] ^= 0x10
+			jobs = append(jobs, job{"bitflip", leaves[li], fp, uint32(li), false})
+		}
+	}
+	for i := range jobs {
+		jobs[i].want = refMerkle(jobs[i].leaf, root, jobs[i].path, jobs[i].pos)
+	}
+	var blobs, digests [][]byte
+	for i := 0; i < 64; i++ {
+		b := bytes.Repeat(world.Derive(c.Seed, "c04blob", i), 1+i%9)
+		h1 := sha256.Sum256(b)
+		h2 := sha256.Sum256(h1[:])
+		blobs, digests = append(blobs, b), append(digests, h2[:])
+	}
+	goroutines, rounds := 16, c.Pick(6, 30)
+	var wg sync.WaitGroup
+	var verdicts, hashes, wrongAccept, wrongReject, wrongDigest atomic.Int64
+	var first atomic.Pointer[job]
+	start := make(chan struct{})
+	for g := 0; g < goroutines; g++ {
+		wg.Add(1)
+		go func(g int) {
+			defer wg.Done()
+			<-start
+			for rd := 0; rd < rounds; rd++ {
+				if g%4 == 3 {
+					for i := range blobs {
+						k := (i*7 + g + rd) % len(blobs)
+						if !bytes.Equal(goatcrypto.DoubleSHA256Sum(blobs[k]), digests[k]) {
+							wrongDigest.Add(1)
+						}
+						hashes.Add(1)
+					}
+					continue
+				}
+				for i := range jobs {
+					j := &jobs[(i*(2*g+1)+rd*31)%len(jobs)]
+					got := btctypes.VerifyMerkelProof(j.leaf, root, j.path, j.pos)
+					verdicts.Add(1)
+					if got != j.want {
+						if got {
+							wrongAccept.Add(1)
+						} else {
+							wrongReject.Add(1)
+						}
+						first.CompareAndSwap(nil, j)
+					}
+				}
+			}
+		}(g)
+	}
+	close(start)
+	wg.Wait()
+	c.Eval(int(verdicts.Load()))
+	c.Count("concurrent_verdicts_compared", int(verdicts.Load()))
+	c.Count("concurrent_double_hashes_compared", int(hashes.Load()))
+	c.Count("concurrent_batches", 1)
+	c.Nontrivial("concurrent size=%d goroutines=%d wrong=%v", size, goroutines, wrongAccept.Load()+wrongReject.Load()+wrongDigest.Load() > 0)
+	rep := map[string]any{"tree_size": size, "goroutines": goroutines, "rounds": rounds, "wrong_accepts": wrongAccept.Load(), "wrong_rejects": wrongReject.Load(), "wrong_digests": wrongDigest.Load()}
+	if j := first.Load(); j != nil {
+		rep["first"] = map[string]any{"variant": j.variant, "leaf": fmt.Sprintf("%x", j.leaf), "path": fmt.Sprintf("%x", j.path), "pos": j.pos, "root": fmt.Sprintf("%x", root), "reference": j.want}
+	}
+	if n := wrongAccept.Load(); n > 0 {
+		c.Violation("accepts an invalid proof while other verifications run", fmt.Sprintf("tree of %d leaves, %d goroutines: %d invalid proofs accepted, %d valid ones rejected (the same inputs are judged correctly one at a time)", size, goroutines, n, wrongReject.Load()), rep)
+	} else if n := wrongReject.Load(); n > 0 {
+		c.Violation("rejects a valid proof while other verifications run", fmt.Sprintf("tree of %d leaves, %d goroutines: %d valid proofs rejected", size, goroutines, n), rep)
+	}
+	if n := wrongDigest.Load(); n > 0 {
+		c.Violation("double hash of a transaction differs while other hashes are computed", fmt.Sprintf("%d of %d digests wrong", n, hashes.Load()), rep)
+	}
+	// and once more one at a time: the concurrent phase must not have left anything behind
+	for i := range jobs {
+		j := &jobs[i]
+		c04Judge(c, size, int(j.pos), "after-concurrent-"+j.variant, j.leaf, root, j.path, j.pos, j.pos, depth)
+	}
+}
+
 func init() {
 	quickRand, thoroughRand := 16, 400
+	quickConc, thoroughConc := 6, 24
 	vc.Register(&vc.Check{
 		ID: "C04", Title: "Merkle inclusion proofs are sound and position-binding", Level: "exploration",
 		Rule: "bounded-exhaustive differential of VerifyMerkelProof against a reference written from the statement: every tree size in {1..33,63,64,65}, " +
 			"every leaf, every claimed position in [0,4*2^depth) plus aliases pos+2^k and 2^31/2^32-1, path variants genuine/truncated/extended/swapped/bit-flipped/ragged/empty and wrong leaf/root sizes; " +
 			"then seeded random trees (size<=300) with mutated positions and paths; then synthetic paths of 13..100 nodes (around and beyond the 32-bit width of the position) whose root is the fold of a random leaf under positions 0, 1, 2^31, 2^32-1, 2^d-1 and random ones, each also with one sibling changed and with one position bit flipped. Non-trivial = the claimed position or the path differs from the genuine one; " +
-			"distinct = (tree size, variant, position class, verdict).",
+			"distinct = (tree size, variant, position class, verdict). " +
+			"Then concurrent batches: 16 goroutines verify genuine proofs, foreign leaves under genuine paths, sibling positions and bit-flipped paths of one tree at the same time, next to goroutines double-hashing transactions, every verdict and digest compared with the sequentially computed reference; the whole check also runs in the race-detector build, where a report of unsynchronised shared memory is a violation.",
 		Assume: []string{"crypto/sha256 of the Go standard library is correct (the reference and the tree builder use it, not pkg/crypto)"},
 		Cases: func(tier string) int {
 			if tier == "thorough" {
-				return len(c04Sizes) + thoroughRand + 16
+				return len(c04Sizes) + thoroughRand + 16 + thoroughConc
 			}
-			return len(c04Sizes) + quickRand + 4
+			return len(c04Sizes) + quickRand + 4 + quickConc
 		},
 		Run: func(c *vc.Ctx, i int) {
+			nd := map[string]int{"quick": 4, "thorough": 16}[c.Tier]
+			if base := len(c04Sizes) + map[string]int{"quick": quickRand, "thorough": thoroughRand}[c.Tier] + nd; i >= base {
+				c04Concurrent(c, i-base)
+				return
+			}
+			_ = quickConc
+			_ = thoroughConc
 			if i < len(c04Sizes) {
 				c04Enumerate(c, c04Sizes[i])
 				return
